@@ -147,7 +147,7 @@ Proof. unfold weights_gu, weights_eq, missing_gu. apply map_ext. intros x. cbn [
 Theorem optv_band_is_gu y nd llas z lopt :
   ws2doptv OpsR y nd llas = VFit z lopt -> lopt <> 0 -> ws2dgu OpsR y lopt nd = Curve z.
 Proof.
-  unfold ws2doptv, ws2dgu. rewrite weights_gu_eq_R. set (w := weights_eq OpsR nd y).
+  unfold ws2doptv, optv_core, ws2dgu. rewrite weights_gu_eq_R. set (w := weights_eq OpsR nd y).
   destruct (fltb OpsR (f1 OpsR) (fsum OpsR w)); [|discriminate].
   destruct (lopt_of OpsR llas _ _) as [lo|]; [|discriminate]. intros [= <- <-] Hl.
   cbn [feqb f0 OpsR]. replace (Reqb lo 0) with false by (symmetry; apply not_true_is_false; intros E; apply Reqb_true in E; contradiction).
